@@ -945,3 +945,41 @@ func VerifCSSFontFamilyQuoted(n int) {
 	}
 	vReach("end")
 }
+
+// VerifCSSHslNumbers (C04): hsl()/hsla() whose saturation or lightness is a bare number. CSS Color 3 makes that an
+// invalid value (left alone), CSS Color 4 reads the number as a percentage: the output is either the function with the
+// same arguments or the colour of the Color 4 reading, nothing else.
+func VerifCSSHslNumbers(n int) {
+	hs := verifHues[vChoice("h", len(verifHues))]
+	grid := []string{"0", "30", "50", "100", "50%", "100%"}
+	ss, ls := grid[vChoice("s", len(grid))], grid[vChoice("l", len(grid))]
+	vAssume(ss[len(ss)-1] != '%' || ls[len(ls)-1] != '%')
+	fn := []string{"hsl(", "hsla("}[vChoice("fn", 2)]
+	sep := []byte{',', ' '}[vChoice("sep", 2)]
+	val := append(append(append(append(append(append([]byte(fn), hs...), sep), ss...), sep), ls...), ')')
+	num := func(s string) float64 {
+		neg := false
+		v := 0.0
+		for i := 0; i < len(s); i++ {
+			if s[i] == '-' {
+				neg = true
+			} else if '0' <= s[i] && s[i] <= '9' {
+				v = v*10 + float64(s[i]-'0')
+			}
+		}
+		if neg {
+			return -v
+		}
+		return v
+	}
+	r, g, b := rcHSL(num(hs), num(ss)/100, num(ls)/100)
+	out := verifDecl(verifColorProps[vChoice("prop", 2)], val, &Minifier{})
+	r1, g1, b1, a1, ok1 := rcColor(out)
+	if !ok1 {
+		vAssert(rcEq(out, val), "colour function either becomes a colour value or stays as it is: "+string(out))
+		vReach("end")
+		return
+	}
+	vAssert(a1 == 255 && rcNear(r, r1) && rcNear(g, g1) && rcNear(b, b1), "hsl with bare numbers: the colour of the percentage reading or the function unchanged: "+string(val)+" => "+string(out))
+	vReach("end")
+}
